@@ -29,6 +29,15 @@ let handle (w : string list) : string =
     set_store { s with users = s.users @ [(n_of_string i, acc)] }; ""
   | ["subrow"; i; want; given] ->
     set_store (ad_sub_create !xs.xb.st (n_of_string i) (n_of_string (snd (R_topic.kv want))) (n_of_string (snd (R_topic.kv given)))); ""
+  | ["sysrow"; u] ->
+    (* user u has a live subscription row on 'sys' (ModeCSys/ModeCSys): he is in sys.perUser *)
+    xs := { !xs with x_sys_subs = !xs.x_sys_subs @ [n_of_string u] }; ""
+  | ["p2prow"; _k; a; b; wa; ga; wb; gb] ->
+    (* the k-th peer-to-peer topic: topic row + the two subscription rows (store.Topics.CreateP2P) *)
+    let v x = n_of_string (snd (R_topic.kv x)) in
+    let s0 = { R_topic.empty_store with t_exists = true; users = !xs.xb.st.users } in
+    let s1 = ad_sub_create (ad_sub_create s0 (n_of_string a) (v wa) (v ga)) (n_of_string b) (v wb) (v gb) in
+    xs := { !xs with x_p2p = !xs.x_p2p @ [{ pt_b = { st = s1; ca = None; ncalls = Datatypes.O }; pt_ro = false }] }; ""
   | ["sess"; sid; u] -> sm := !sm @ [(n_of_string sid, n_of_string u)]; ""
   | "op" :: flt :: kind :: args ->
     incr opi;
@@ -57,6 +66,10 @@ let handle (w : string list) : string =
       | "pubme", [sid; content] -> EPubMe (n sid, n content)
       | "pubfnd", [sid; content] -> EPubFnd (n sid, n content)
       | "pubsys", [sid; content] -> EPubSys (f, n sid, n content)
+      | "p2psub", [sid; k] -> EP2P (nat_of_int (int_of_string k - 1), f, PSub (n sid))
+      | "p2pleave", [sid; k] -> EP2P (nat_of_int (int_of_string k - 1), f, PLeave (n sid))
+      | "p2ppub", [sid; k; content; noecho] -> EP2P (nat_of_int (int_of_string k - 1), f, PPub (n sid, n content, noecho = "1"))
+      | "p2punload", [k] -> EP2P (nat_of_int (int_of_string k - 1), f, PUnload)
       | _ -> failwith ("bad op " ^ kind) in
     (* an event other than {pub} while the delete is held open first lets the hub finish it; the driver
        discards what that sends (it belongs to the delete, not to this request): same here *)
@@ -93,7 +106,25 @@ let handle (w : string list) : string =
           "store fnd " ^ sorted_ns x1.x_fnd;
           "store sys seqid=" ^ string_of_z x1.x_sys_seqid ^ " lastid=" ^ string_of_z x1.x_sys_lastid ]
       @ List.sort compare (List.map (fun m ->
-          Printf.sprintf "store sysmsg %05d from=%d content=%s" (int_of_z m.m_seq) (int_of_n m.m_from) (string_of_n m.m_content)) x1.x_sys_msgs))
+          Printf.sprintf "store sysmsg %05d from=%d content=%s" (int_of_z m.m_seq) (int_of_n m.m_from) (string_of_n m.m_content)) x1.x_sys_msgs)
+      @ [ "store sysro " ^ b2s x1.x_sys_ro;
+          "store syssubs " ^ sorted_ns x1.x_sys_subs;
+          (* 'me' / 'fnd' topics are skipped by hub.topicsStateForUser: none is ever read-only *)
+          "store mefndro " ]
+      @ List.mapi (fun i p ->
+          let pb = p.pt_b in
+          let msgs = String.concat "," (List.map (fun m ->
+            Printf.sprintf "%d:%d:%s" (int_of_z m.m_seq) (int_of_n m.m_from) (string_of_n m.m_content))
+            (List.sort (fun m1 m2 -> compare (int_of_z m1.m_seq) (int_of_z m2.m_seq)) pb.st.msgs)) in
+          match pb.ca with
+          | None ->
+            Printf.sprintf "store p2p %d loaded=0 ro=%s seqid=%s lastid=-1 users=- sess= msgs=%s" (i + 1) (b2s p.pt_ro)
+              (string_of_z pb.st.t_seqid) msgs
+          | Some c ->
+            let users = String.concat "," (List.map (fun (u, (w, g)) -> Printf.sprintf "%d:%s/%s" u w g)
+              (List.sort compare (List.map (fun (u, pd) -> (int_of_n u, (R_topic.mode_str pd.p_want, R_topic.mode_str pd.p_given))) c.c_users))) in
+            Printf.sprintf "store p2p %d loaded=1 ro=%s seqid=%s lastid=%s users=%s sess=%s msgs=%s" (i + 1) (b2s p.pt_ro)
+              (string_of_z pb.st.t_seqid) (string_of_z c.c_lastid) users (sorted_ns (List.map fst c.c_sess)) msgs) x1.x_p2p)
   | ["end"] -> "end"
   | [] -> ""
   | _ -> "?"
